@@ -60,6 +60,8 @@ type faultCase struct {
 	WithCause bool `json:"with_cause,omitempty"`
 	// ExplicitParser: the client's configuration names the standard response parser explicitly (see cli.Scenario)
 	ExplicitParser bool `json:"explicit_parser,omitempty"`
+	// Address: the form of the address given to Connect (network kinds; see cli.Scenario)
+	Address string `json:"address,omitempty"`
 	// Over (fault oversize-frame): the transport delivers a structurally well-formed register reply (consistent byte count,
 	// MBAP length / CRC) that is Over bytes longer than the largest legal ADU of the framing
 	Over int `json:"over,omitempty"`
@@ -187,6 +189,7 @@ func prepare(c faultCase) (prep, error) {
 	}
 	sc.Stream, sc.Events = stream, ev
 	sc.ExplicitParser = c.ExplicitParser
+	sc.Address = c.Address
 	sc.WithCause = c.WithCause
 	sc.Prior = c.Prior
 	sc.PriorReq = cli.PriorShapeReq(c.PriorShape)
@@ -385,6 +388,9 @@ func genFault(t *rapid.T, kinds []string) faultCase {
 	}
 	c.Fault = rapid.SampledFrom(faults).Draw(t, "fault")
 	c.ExplicitParser = !cli.IsSerial(c.Kind) && rapid.IntRange(0, 3).Draw(t, "explicit_parser") == 0
+	if !cli.IsSerial(c.Kind) {
+		c.Address = rapid.SampledFrom(cli.Addresses).Draw(t, "address")
+	}
 	if strings.HasPrefix(c.Fault, "cancel") || strings.HasPrefix(c.Fault, "deadline") {
 		c.WithCause = rapid.Bool().Draw(t, "with_cause")
 	}
@@ -520,9 +526,84 @@ func TestFindings(t *testing.T) {
 	})
 }
 
+// silenceCase: the transport delivers the WHOLE reply - normal, or an exception with any code, among them 05 Acknowledge and 06 Server
+// Device Busy, which announce that something else may follow - and then nothing more, ever (the largest "prefix of the reply" after
+// which a transport can stall). The call must still end in bounded time; a normal reply may be returned, an exception reply must
+// end it with an error.
+type silenceCase struct {
+	Kind    string   `json:"kind"`
+	Req     spec.Req `json:"req"`
+	DevSeed uint64   `json:"dev_seed"`
+	ExcCode uint8    `json:"exc_code"`
+	Cuts    []int    `json:"cuts,omitempty"`
+	// Deadline: the caller's context carries a (far) deadline of its own
+	Deadline bool `json:"deadline,omitempty"`
+}
+
+func runSilence(c silenceCase) harness.Result {
+	f := cli.FramingOf(c.Kind)
+	q, err := cat.NewRequest(f, c.Req)
+	if err != nil {
+		return harness.Fail("harness: %v", err)
+	}
+	d := device.New(c.DevSeed)
+	d.ForceException = c.ExcCode
+	reply := d.Answer(f, q.Bytes())
+	var ev []xport.Event
+	for _, n := range gen.ChunksFromCuts(len(reply), c.Cuts) {
+		ev = append(ev, xport.Event{Kind: "data", N: n})
+	}
+	sc := cli.Scenario{Kind: c.Kind, Req: c.Req, Stream: reply, Events: ev, ReadTimeoutMs: 20}
+	if c.Deadline {
+		sc.DeadlineMs = 60000
+	}
+	o := cli.Run(sc)
+	labels := []string{"kind:" + c.Kind, fmt.Sprintf("fc%d", c.Req.FC), "whole-reply-then-silence"}
+	if c.ExcCode != 0 {
+		labels = append(labels, fmt.Sprintf("exception-code:%d", c.ExcCode))
+	}
+	if o.Panic != nil {
+		return harness.Fail("request call panicked: %v", o.Panic)
+	}
+	if o.Hung {
+		return harness.Fail("request call did not return within %v: the transport delivered the whole reply %x (chunks %v) and then stayed silent", cli.HangCeiling, reply, gen.ChunksFromCuts(len(reply), c.Cuts))
+	}
+	if o.Err == nil {
+		if c.ExcCode != 0 {
+			return harness.Fail("exception reply %x was reported as success: %x", reply, respBytes(o))
+		}
+		if !bytes.Equal(respBytes(o), reply) {
+			return harness.Fail("reply %x followed by silence: the call returned %x", reply, respBytes(o))
+		}
+	}
+	return harness.Result{NonTrivial: true, Labels: labels}
+}
+
+var chkSilence = harness.Define("whole-reply-then-silence",
+	func(t *rapid.T) silenceCase {
+		c := silenceCase{Kind: rapid.SampledFrom([]string{cli.TCP, cli.RTUNet, cli.TCP, cli.RTUNet, cli.TCP, cli.RTUNet, cli.Serial, cli.SerialFlush}).Draw(t, "kind"), DevSeed: rapid.Uint64().Draw(t, "dev_seed")}
+		c.Req = gen.LegalReq(t, gen.FC(t), true)
+		if c.Req.FC == 23 && c.Req.Qty > 124 {
+			c.Req.Qty = 124
+		}
+		if rapid.Bool().Draw(t, "exception") {
+			c.ExcCode = rapid.SampledFrom([]uint8{1, 2, 3, 4, 5, 5, 6, 6, 7, 8, 10, 11}).Draw(t, "exc_code")
+			if rapid.IntRange(0, 3).Draw(t, "any_code") == 0 {
+				c.ExcCode = rapid.Uint8Range(1, 255).Draw(t, "exc_code_any")
+			}
+		}
+		if c.Req.FC != 17 && rapid.Bool().Draw(t, "cut") {
+			// (not for Read Server ID: where a read boundary makes the client stop early, the listed FC17 findings apply)
+			c.Cuts = []int{rapid.IntRange(1, 9).Draw(t, "cut_at")}
+		}
+		c.Deadline = rapid.IntRange(0, 3).Draw(t, "deadline") == 0
+		return c
+	}, runSilence)
+
 func TestRandom(t *testing.T) {
 	chkFault.Rapid(t, harness.Pick(1500, 40000))
 	chkSerial.Rapid(t, harness.Pick(4, 80))
+	chkSilence.Rapid(t, harness.Pick(400, 8000))
 }
 
 // TestPrefixSweep: every prefix x every fault kind for every function x framing x reply sizes (network clients).
